@@ -112,6 +112,7 @@ pub fn graph_of(m: &Model, it: &mut Interner) -> Value {
         "walls": m.walls.iter().map(|w| json!({"id": it.id(w.id), "space": it.id(w.space), "cons": it.id(w.cons), "next": it.opt(w.next_to)})).collect::<Vec<_>>(),
         "windows": m.windows.iter().map(|w| json!({"id": it.id(w.id), "wall": it.id(w.wall), "cons": it.id(w.cons)})).collect::<Vec<_>>(),
         "tbs": m.thermal_bridges.iter().map(|t| json!({"id": it.id(t.id), "lsign": lsign(t.l)})).collect::<Vec<_>>(),
+        "shades": m.shades.iter().map(|t| json!({"id": it.id(t.id)})).collect::<Vec<_>>(),
         "wallcons": m.cons.wallcons.iter().map(|c| json!({"id": it.id(c.id), "mats": c.layers.iter().map(|l| it.id(l.material)).collect::<Vec<_>>()})).collect::<Vec<_>>(),
         "wincons": m.cons.wincons.iter().map(|c| json!({"id": it.id(c.id), "glass": it.id(c.glass), "frame": it.id(c.frame)})).collect::<Vec<_>>(),
         "materials": m.cons.materials.iter().map(|c| json!({"id": it.id(c.id)})).collect::<Vec<_>>(),
